@@ -97,6 +97,20 @@ func init() {
 				Old:  "\t\tclone, err := signedSet.Clone() // Clone before calling each subscriber.\n\t\tif err != nil {\n\t\t\treturn err\n\t\t}\n\n\t\tif err = sub(ctx, duty, clone); err != nil {",
 				New:  "\t\tif clone == nil {\n\t\t\tc, err := signedSet.Clone()\n\t\t\tif err != nil {\n\t\t\t\treturn err\n\t\t\t}\n\n\t\t\tclone = c\n\t\t}\n\n\t\tif err := sub(ctx, duty, clone); err != nil {",
 				More: [][2]string{{"\tfor _, sub := range db.internalSubs {", "\tvar clone core.ParSignedDataSet\n\n\tfor _, sub := range db.internalSubs {"}}},
+			// ---- shallow copies (maps.Clone / slices.Clone of containers whose elements hold references are not clones)
+			{ID: "C18-X2-scheduler-getdef-shallow-mapsclone", File: "core/scheduler/scheduler.go", Expect: "X2|core/scheduler.Scheduler.GetDutyDefinition",
+				Old: "\treturn defSet.Clone() // Clone before returning.", New: "\treturn maps.Clone(defSet), nil",
+				More: [][2]string{{"\t\"fmt\"\n\t\"math\"\n", "\t\"fmt\"\n\t\"maps\"\n\t\"math\"\n"}}},
+			{ID: "C18-X3-parsigdb-internal-shallow-mapsclone", File: "core/parsigdb/memory.go", Expect: "X3|core/parsigdb.MemDB.StoreInternal",
+				Old:  "\t\tclone, err := signedSet.Clone() // Clone before calling each subscriber.",
+				New:  "\t\tclone, err := maps.Clone(signedSet), error(nil)",
+				More: [][2]string{{"\t\"encoding/json\"\n\t\"strconv\"\n", "\t\"encoding/json\"\n\t\"maps\"\n\t\"strconv\"\n"}}},
+			{ID: "C18-X3-parsigdb-thresh-shallow-slicesclone", File: "core/parsigdb/memory.go", Expect: "X3|core/parsigdb.MemDB.StoreExternal",
+				Old:  "\t\tclone[pubkey] = clones\n",
+				New:  "\t\t_ = clones\n\t\tclone[pubkey] = slices.Clone(sigs)\n",
+				More: [][2]string{{"\t\"encoding/json\"\n\t\"strconv\"\n", "\t\"encoding/json\"\n\t\"slices\"\n\t\"strconv\"\n"}}},
+			{ID: "C18-X2-aggsigdbv2-await-single-exit-noclone", File: "core/aggsigdb/memory_v2.go", Expect: "X2|core/aggsigdb.MemDBV2.Await",
+				Old: "\t\t\tclone, err := data.Clone()\n\n\t\t\treturn clone, nil, err", New: "\t\t\tclone, err := data.Clone()\n\t\t\tif err == nil {\n\t\t\t\tclone = data\n\t\t\t}\n\n\t\t\treturn clone, nil, err"},
 		},
 	})
 }
@@ -227,29 +241,67 @@ func c18(c *rt.Ctx) {
 					if !mutable {
 						continue
 					}
-					field := ""
-					if st, _, _ := an.C18Summary(e.Container(target)); st != nil {
-						field = st.What
+					// a write that sits in a helper which is handed the map (and the value) as parameters is judged per call
+					// site of the helper: the map of one caller with the value of the same caller
+					type inst struct {
+						target ssa.Value
+						vals   []ssa.Value
 					}
-					if field == "" || !declaredIn(field, rel) {
-						continue // local memory (constructors, literals) or not this component's state
-					}
-					g := agg.get(an.FuncName(fn)+" writes "+field, posOf(in))
-					written[field] = true
-					for _, v := range vals {
-						os := e.Origins(v)
-						_, par, unk := an.C18Summary(os)
-						switch {
-						case par != nil:
-							g.setBad(posOf(in), "value written into component state is the caller's own object ("+par.What+"), not a clone: a later mutation by the caller changes what the store holds. origins: "+c18Describe(os))
-						case unk != nil:
-							g.setUnsure(posOf(in), "cannot decide the origin of the stored value: "+unk.What)
-						default:
-							if d := c18Describe(os); d != "" && !strings.Contains(g.good, d) {
-								if g.good != "" {
-									g.good += " | "
+					insts := []inst{{target, vals}}
+					if p, ok := an.Resolve(target).(*ssa.Parameter); ok {
+						if cs := e.VisibleCallers(p.Parent()); len(cs) > 0 {
+							insts = nil
+							for _, ci := range cs {
+								sub := func(v ssa.Value) ssa.Value {
+									if q, ok := an.Resolve(v).(*ssa.Parameter); ok && q.Parent() == p.Parent() {
+										for i, r := range q.Parent().Params {
+											if r == q && i < len(ci.Common().Args) {
+												return ci.Common().Args[i]
+											}
+										}
+									}
+									return v
 								}
-								g.good += d
+								it := inst{target: sub(target)}
+								for _, v := range vals {
+									it.vals = append(it.vals, sub(v))
+								}
+								insts = append(insts, it)
+							}
+						}
+					}
+					for _, it := range insts {
+						target, vals := it.target, it.vals
+						// the container can be several fields when the write sits in a helper shared by several stores
+						var fieldsHit []string
+						for _, o := range e.Container(target) {
+							if o.Kind == an.C18State && !o.Self && declaredIn(o.What, rel) && !c18Contains(fieldsHit, o.What) {
+								fieldsHit = append(fieldsHit, o.What)
+							}
+						}
+						// local memory (constructors, literals) or not this component's state: no field
+						for _, field := range fieldsHit {
+							g := agg.get(an.FuncName(fn)+" writes "+field, posOf(in))
+							written[field] = true
+							for _, v := range vals {
+								if !an.C18Mutable(v.Type()) {
+									continue
+								}
+								os := e.Origins(v)
+								_, par, unk := an.C18Summary(os)
+								switch {
+								case par != nil:
+									g.setBad(posOf(in), "value written into component state is the caller's own object ("+par.What+"), not a clone: a later mutation by the caller changes what the store holds. origins: "+c18Describe(os))
+								case unk != nil:
+									g.setUnsure(posOf(in), "cannot decide the origin of the stored value: "+unk.What)
+								default:
+									if d := c18Describe(os); d != "" && !strings.Contains(g.good, d) {
+										if g.good != "" {
+											g.good += " | "
+										}
+										g.good += d
+									}
+								}
 							}
 						}
 					}
@@ -257,11 +309,16 @@ func c18(c *rt.Ctx) {
 			}
 		}
 		agg.flush(c)
-		// vacuity is keyed by the stores' data fields, not by how many functions write them: splitting or merging
-		// the writing functions changes the number of obligations, never the set of fields that must be covered
-		for _, f := range c18DataFields {
+		// vacuity is keyed by the stores' data fields (found by their type: maps whose values hold workflow data), not by
+		// their names nor by how many functions write them: splitting or merging the writing functions or renaming a
+		// field changes neither the set of fields that must be covered nor the verdict
+		data := c18DataMapFields(c)
+		if len(data) < c18MinDataFields {
+			c.Unsure("data fields of the stores", token.NoPos, fmt.Sprintf("only %d map fields holding workflow data found in the stores (expected at least %d): the stores were restructured beyond what this rule recognises", len(data), c18MinDataFields))
+		}
+		for _, f := range data {
 			if !written[f] {
-				c.Unsure("table "+f, token.NoPos, "no analysed write into this data field of the frozen table (renamed, removed, or written in a way the origin engine does not see)")
+				c.Unsure("data field "+f, token.NoPos, "no analysed write into this data field (written in a way the origin engine does not see)")
 			}
 		}
 	})
@@ -301,7 +358,11 @@ func c18(c *rt.Ctx) {
 						switch {
 						case st != nil:
 							if bad == "" {
-								bad, pos = "query returns memory of the component's own state ("+st.What+") without Clone(): every reader gets the same object and a write through it changes the store. origins: "+c18Describe(os), posOf(r)
+								how := "without Clone()"
+								if st.Shallow {
+									how = "behind a shallow copy (the container is new, its elements still are the stored objects)"
+								}
+								bad, pos = "query returns memory of the component's own state ("+st.What+") "+how+": every reader gets the same object and a write through it changes the store. origins: "+c18Describe(os), posOf(r)
 							}
 						case unk != nil:
 							if unsure == "" {
@@ -337,6 +398,7 @@ func c18(c *rt.Ctx) {
 			fn   *ssa.Function
 			call ssa.CallInstruction
 			key  string
+			fan  c18Fan
 		}
 		var sites []site
 		fields := map[string]string{} // field key -> package rel
@@ -351,8 +413,18 @@ func c18(c *rt.Ctx) {
 					if cc.IsInvoke() || cc.StaticCallee() != nil {
 						continue
 					}
-					key, ok := c18CallbackField(cc.Value)
-					if !ok || !declaredIn(key, rel) {
+					if _, isB := cc.Value.(*ssa.Builtin); isB {
+						continue
+					}
+					// where can the called function value come from? (directly an element of a callback field, or one handed
+					// down through helpers / function literals)
+					var fans []c18Fan
+					for _, f := range c18TraceCallback(e, cc.Value, nil, 0) {
+						if declaredIn(f.key, rel) {
+							fans = append(fans, f)
+						}
+					}
+					if len(fans) == 0 {
 						continue
 					}
 					hasData := false
@@ -364,8 +436,10 @@ func c18(c *rt.Ctx) {
 					if !hasData {
 						continue // e.g. slotSubs(ctx, core.Slot)
 					}
-					sites = append(sites, site{fn, ci, key})
-					fields[key] = rel
+					for _, f := range fans {
+						sites = append(sites, site{fn, ci, f.key, f})
+						fields[f.key] = rel
+					}
 				}
 			}
 		}
@@ -390,15 +464,31 @@ func c18(c *rt.Ctx) {
 				unknownReg[k] = why
 			}
 		}
-		for _, f := range c18CallbackFields {
+		// vacuity: the callback fields are found by their type (slices of functions that take workflow data), not by name
+		cbs := c18CallbackSliceFields(c)
+		if len(cbs) < c18MinCallbackFields {
+			c.Unsure("callback fields of the components", token.NoPos, fmt.Sprintf("only %d slice-of-callback fields found (expected at least %d): the fan-outs were restructured beyond what this rule recognises", len(cbs), c18MinCallbackFields))
+		}
+		for _, f := range cbs {
 			if _, ok := fields[f]; !ok {
-				c.Unsure("table "+f, token.NoPos, "no call through this callback field of the frozen table found (renamed, removed, or called in a way this rule does not see)")
+				c.Unsure("callback field "+f, token.NoPos, "no call through this slice-of-callbacks field found (called in a way this rule does not see)")
 			}
 		}
 		var agg c18Agg
 		for _, s := range sites {
 			cc := s.call.Common()
-			inLoop, perIter := c18PerIteration(s.call)
+			inLoop0, perIter0 := c18PerIteration(s.call)
+			inLoop := inLoop0 || s.fan.loop != nil
+			// made anew for every subscriber: inside the fan-out loop, or inside a function that runs once per subscriber
+			perIter := func(root ssa.Instruction) bool {
+				if root == nil {
+					return false
+				}
+				if inLoop0 && perIter0(root) {
+					return true
+				}
+				return s.fan.perSubscriber(root)
+			}
 			for i, a := range cc.Args {
 				if !an.C18Mutable(a.Type()) {
 					continue
@@ -430,17 +520,29 @@ func c18(c *rt.Ctx) {
 					g.setUnsure(s.call.Pos(), "call through a callback slice outside a loop")
 					continue
 				}
-				shared := ""
+				shared, unsureShared := "", ""
 				for _, o := range os {
 					if o.Const || o.Kind != an.C18Fresh {
 						continue
 					}
-					if o.Root == nil || !perIter(o.Root) {
+					switch {
+					case o.Root != nil && perIter(o.Root):
+					case o.Root != nil:
 						shared = o.What
+					case o.Made != nil && perIter(o.Made):
+						// made by a caller of the helper this call sits in, inside the fan-out loop
+					case o.Made != nil && s.fan.loop != nil && o.Made.Parent() == s.fan.loopFn:
+						shared = o.What // made in the function of the fan-out loop, outside the loop
+					default:
+						unsureShared = o.What
 					}
 				}
 				if shared == "" && c18CarriedOver(a, s.call) {
 					shared = "an object kept from an earlier iteration"
+				}
+				if shared == "" && unsureShared != "" {
+					g.setUnsure(s.call.Pos(), "cannot tell whether "+unsureShared+" is made once per subscriber")
+					continue
 				}
 				if shared != "" {
 					bad(s.call.Pos(), "the same object ("+shared+", made outside the fan-out loop) is handed to every subscriber: one subscriber's mutation is seen by the next. origins: "+c18Describe(os))
@@ -459,15 +561,240 @@ func c18(c *rt.Ctx) {
 
 // the data fields of the stores (what X1 is about) and the callback fields of the fan-outs (X3): frozen tables that
 // replace instance counting as the vacuity guard. A renamed field ends UNDECIDED.
-var c18DataFields = []string{
-	"core/aggsigdb.MemDB.data", "core/aggsigdb.MemDBV2.data",
-	"core/dutydb.MemDB.attDuties", "core/dutydb.MemDB.proDuties", "core/dutydb.MemDB.aggDuties", "core/dutydb.MemDB.contribDuties",
-	"core/parsigdb.MemDB.entries", "core/scheduler.Scheduler.duties",
+// (today: aggsigdb MemDB.data, MemDBV2.data; dutydb attDuties, proDuties, aggDuties, contribDuties; parsigdb entries;
+// scheduler duties — and fetcher/parsigdb(2)/scheduler/sigagg/validatorapi callback slices)
+const (
+	c18MinDataFields     = 8
+	c18MinCallbackFields = 6
+)
+
+func c18Contains(xs []string, x string) bool {
+	for _, y := range xs {
+		if x == y {
+			return true
+		}
+	}
+	return false
 }
 
-var c18CallbackFields = []string{
-	"core/fetcher.Fetcher.subs", "core/parsigdb.MemDB.internalSubs", "core/parsigdb.MemDB.threshSubs",
-	"core/scheduler.Scheduler.dutySubs", "core/sigagg.Aggregator.subs", "core/validatorapi.Component.subs",
+// c18ComponentStructs: the named struct types of package rel that have at least one exported method (the components;
+// parameter objects and query records have none).
+func c18ComponentStructs(c *rt.Ctx, rel string) []*types.Named {
+	var out []*types.Named
+	scope := c.Pkg(rel).Types.Scope()
+	names := scope.Names()
+	sort.Strings(names)
+	for _, name := range names {
+		tn, ok := scope.Lookup(name).(*types.TypeName)
+		if !ok || tn.IsAlias() {
+			continue
+		}
+		n, ok := tn.Type().(*types.Named)
+		if !ok {
+			continue
+		}
+		if _, ok := n.Underlying().(*types.Struct); !ok {
+			continue
+		}
+		ms := types.NewMethodSet(types.NewPointer(n))
+		exported := false
+		for i := 0; i < ms.Len(); i++ {
+			if ms.At(i).Obj().Exported() {
+				exported = true
+			}
+		}
+		if exported {
+			out = append(out, n)
+		}
+	}
+	return out
+}
+
+// c18Leaf strips pointers, slices, arrays and map values.
+func c18Leaf(t types.Type) types.Type {
+	for i := 0; i < 8; i++ {
+		switch u := t.Underlying().(type) {
+		case *types.Pointer:
+			t = u.Elem()
+		case *types.Slice:
+			t = u.Elem()
+		case *types.Array:
+			t = u.Elem()
+		case *types.Map:
+			t = u.Elem()
+		default:
+			return t
+		}
+	}
+	return t
+}
+
+// c18DataMapFields: the fields of the stores' component structs that are maps whose values (behind pointers, slices,
+// nested maps) are workflow data holding references. Index maps (values are keys / scalars) and plumbing are not data.
+func c18DataMapFields(c *rt.Ctx) []string {
+	var out []string
+	for _, rel := range c18StorePkgs {
+		for _, n := range c18ComponentStructs(c, rel) {
+			st := n.Underlying().(*types.Struct)
+			for i := 0; i < st.NumFields(); i++ {
+				m, ok := st.Field(i).Type().Underlying().(*types.Map)
+				if !ok {
+					continue
+				}
+				if leaf := c18Leaf(m.Elem()); an.C18Mutable(leaf) {
+					out = append(out, an.FieldKey(n, i))
+				}
+			}
+		}
+	}
+	return out
+}
+
+// c18CallbackSliceFields: the fields of the components' structs that are slices of functions taking workflow data.
+func c18CallbackSliceFields(c *rt.Ctx) []string {
+	var out []string
+	for _, rel := range c18Pkgs {
+		for _, n := range c18ComponentStructs(c, rel) {
+			st := n.Underlying().(*types.Struct)
+			for i := 0; i < st.NumFields(); i++ {
+				sl, ok := st.Field(i).Type().Underlying().(*types.Slice)
+				if !ok {
+					continue
+				}
+				sig, ok := sl.Elem().Underlying().(*types.Signature)
+				if !ok {
+					continue
+				}
+				for j := 0; j < sig.Params().Len(); j++ {
+					if an.C18Mutable(sig.Params().At(j).Type()) {
+						out = append(out, an.FieldKey(n, i))
+						break
+					}
+				}
+			}
+		}
+	}
+	return out
+}
+
+// c18Fan describes how a called function value is an element of a callback field: the field, the loop that walks the
+// field (in loopFn), and the functions that run once per element (helpers / literals the element is handed to).
+type c18Fan struct {
+	key    string
+	region map[*ssa.Function]bool
+	loopFn *ssa.Function
+	loop   *an.Loop
+}
+
+// perSubscriber: the memory made by instruction root is made anew for each element of the callback field.
+func (f c18Fan) perSubscriber(root ssa.Instruction) bool {
+	if root == nil || root.Parent() == nil {
+		return false
+	}
+	for fn := root.Parent(); fn != nil; fn = fn.Parent() {
+		if f.region[fn] || f.region[an.Orig(fn)] {
+			return true
+		}
+	}
+	return f.loop != nil && root.Parent() == f.loopFn && f.loop.Body[root.Block()]
+}
+
+func c18IsCallbackSlice(t types.Type) bool {
+	sl, ok := t.Underlying().(*types.Slice)
+	if !ok {
+		return false
+	}
+	_, ok = sl.Elem().Underlying().(*types.Signature)
+	return ok
+}
+
+// c18CollKeys: the callback fields a slice value is (directly, or as a parameter through the visible callers).
+func c18CollKeys(e *an.C18Engine, coll ssa.Value, d int) []string {
+	coll = c18ResolveCaptured(coll)
+	if k, _, ok := an.FieldOf(coll); ok {
+		if c18IsCallbackSlice(coll.Type()) {
+			return []string{k}
+		}
+		return nil
+	}
+	p, ok := coll.(*ssa.Parameter)
+	if !ok || d > 3 {
+		return nil
+	}
+	idx := -1
+	for i, q := range p.Parent().Params {
+		if q == p {
+			idx = i
+		}
+	}
+	var out []string
+	for _, ci := range e.VisibleCallers(p.Parent()) {
+		if idx >= 0 && idx < len(ci.Common().Args) {
+			out = append(out, c18CollKeys(e, ci.Common().Args[idx], d+1)...)
+		}
+	}
+	return out
+}
+
+// c18TraceCallback follows a called function value backwards to the slice-of-callbacks fields it can be an element of.
+func c18TraceCallback(e *an.C18Engine, v ssa.Value, region map[*ssa.Function]bool, d int) []c18Fan {
+	if d > 6 {
+		return nil
+	}
+	v = c18ResolveCaptured(v)
+	with := func(fn *ssa.Function) map[*ssa.Function]bool {
+		r := map[*ssa.Function]bool{fn: true}
+		for k := range region {
+			r[k] = true
+		}
+		return r
+	}
+	var coll ssa.Value
+	var at ssa.Instruction
+	switch x := v.(type) {
+	case *ssa.UnOp:
+		if ia, ok := x.X.(*ssa.IndexAddr); ok && x.Op == token.MUL {
+			coll, at = ia.X, x
+		}
+	case *ssa.Index:
+		coll, at = x.X, x
+	case *ssa.Parameter:
+		fn := x.Parent()
+		idx := -1
+		for i, q := range fn.Params {
+			if q == x {
+				idx = i
+			}
+		}
+		if idx < 0 || (idx == 0 && fn.Signature.Recv() != nil) {
+			return nil
+		}
+		var calls []ssa.CallInstruction
+		if fn.Parent() != nil {
+			cs, ok := e.IndirectCalls(fn)
+			if !ok {
+				return nil
+			}
+			calls = cs
+		} else {
+			calls = e.VisibleCallers(fn)
+		}
+		var out []c18Fan
+		for _, ci := range calls {
+			if idx < len(ci.Common().Args) {
+				out = append(out, c18TraceCallback(e, ci.Common().Args[idx], with(fn), d+1)...)
+			}
+		}
+		return out
+	}
+	if coll == nil {
+		return nil
+	}
+	var out []c18Fan
+	for _, k := range c18CollKeys(e, coll, 0) {
+		out = append(out, c18Fan{key: k, region: region, loopFn: at.Parent(), loop: an.InnermostLoop(at.Parent(), at.Block())})
+	}
+	return out
 }
 
 // c18ResolveCaptured is an.Resolve that also looks through variables captured by a function literal (a load of a free
